@@ -600,13 +600,13 @@ class implicitmodel(timemodel):
         """
         raise NotImplementedError("not implemented: virtual implicit class")
 
-    def calc_jacobian(self, field, epsdiff=1.0e-6):
+    def calc_jacobian(self, field, epsdiff=1.0):
         """jacobian matrix dR/dQ of dQ/dt=R(Q) is computed as successive columns by finite difference of R(Q+dQ)
             ordering is ncell x neq (neq is the fast index)
 
         Args:
           field:
-          epsdiff:  (Default value = 1.e-6)
+          epsdiff:  (Default value = 1.)
 
         Returns:
 
